@@ -3,6 +3,8 @@ import AFProofs.C03
 import AFModel.FloatOps
 import AFModel.SearchTable
 import AFModel.Generated.C04
+import AFModel.LogPrior
+import AFProofs.Lemmas.LogPrior
 
 /-!
 # C04 — the figure of merit handed to a search
@@ -340,5 +342,122 @@ example :
       | .value x => x.toBits == (-7.0 : Float).toBits
       | .raises => false) = true := by
   decide +kernel
+
+end AF.C04
+
+
+/-! ## the log-prior terms are computed, not supplied
+
+`logPriorList` (`AFModel/LogPrior.lean`) is what the driver executes for `lp`: parameter order from
+the composition tree (`uniqueIds`, the order C01 proves for `model.paths`), one expression per prior
+family. The theorems above hold for every `lp`; here `lp` is the model's. -/
+
+namespace AF.C04
+open AF AF.LogPriorLemmas
+
+/-- one term per parameter (Python's `map` stops at the shorter of priors and vector) -/
+theorem logPriorList_length (lo : LpOps V) (tbl : List (Nat × PriorD V)) (t : Node V) (v : List V) :
+    (logPriorList lo tbl t v).length = min (count t) v.length := by
+  simp [logPriorList, argsOfVector_length]
+
+/-- **Parameter order.** the k-th term is `log_prior_from_value` of the prior whose id is k-th in
+parameter order, applied to the k-th entry of the vector -/
+theorem logPriorList_term (lo : LpOps V) (tbl : List (Nat × PriorD V)) (t : Node V) (v : List V) (k : Nat)
+    (id : Nat) (x : V) (hid : (uniqueIds t)[k]? = some id) (hx : v[k]? = some x) :
+    (logPriorList lo tbl t v)[k]? = some (logPriorOf lo (descOf lo tbl id) x) := by
+  simp [logPriorList, argsOfVector_getElem?, hid, hx]
+
+/-- the families, with the expressions of the code -/
+theorem logPrior_families (lo : LpOps V) (mean sigma x : V) :
+    logPriorOf lo ⟨.uniform, mean, sigma⟩ x = lo.zero ∧
+    logPriorOf lo ⟨.logUniform, mean, sigma⟩ x = lo.div lo.one x ∧
+    logPriorOf lo ⟨.gaussian, mean, sigma⟩ x = lo.div (lo.sq (lo.sub x mean)) (lo.mul lo.two (lo.sq sigma)) ∧
+    (lo.le0 x = true → logPriorOf lo ⟨.logGaussian, mean, sigma⟩ x = lo.negInf) ∧
+    (lo.le0 x = false → logPriorOf lo ⟨.logGaussian, mean, sigma⟩ x =
+      lo.sub (lo.div (lo.sq (lo.sub (lo.log x) mean)) (lo.mul lo.two (lo.sq sigma))) (lo.log x)) := by
+  refine ⟨rfl, rfl, rfl, ?_, ?_⟩ <;> intro h <;> simp [logPriorOf, normalTerm, h]
+
+/-- **Posterior = likelihood + the model's terms, summed left to right in parameter order**, times −2
+in chi-squared mode; nothing is added in likelihood mode. `lp` is no longer a parameter. -/
+theorem posterior_sum_in_parameter_order (fo : FomOps V) (lo : LpOps V) (cfg : FitCfg V) (g)
+    (tbl : List (Nat × PriorD V)) (t : Node V) (st : FitSt V) (v : List V) (i : Inst V) (ll : V) (hg : g v = .ok i) :
+    (fitnessCall fo cfg g (logPriorList lo tbl t) st v (.fin ll)).1 =
+      .value (let post := fo.add ll (((uniqueIds t).zip v).foldl
+                  (fun acc a => fo.add acc (logPriorOf lo (descOf lo tbl a.1) a.2)) fo.zero)
+              let fom := if cfg.fomIsLL then ll else post
+              if cfg.convertChi then fo.mulNeg2 fom else fom) := by
+  rw [fom_on_success fo cfg g _ st v i ll hg]
+  simp only [pySum, logPriorList, foldl_map_add, argsOfVector]
+
+/-- with the model's own gate (C03) and the model's own terms: the complete sentence for a vector of
+the right length -/
+theorem fom_of_model (ops : Ops V) [Inhabited V] (fo : FomOps V) (lo : LpOps V) (cfg : FitCfg V)
+    (t : Node V) (lims : List (V × V)) (asserts : List (Asrt V)) (tbl : List (Nat × PriorD V))
+    (st : FitSt V) (v : List V) (ll : V) (hl : v.length = count t) :
+    (fitnessCall fo cfg (fun v => gate ops t lims asserts v false) (logPriorList lo tbl t) st v (.fin ll)).1 =
+      if limitsOk ops lims v = true ∧ (∀ a ∈ asserts, evalA ops (valOf (argsOfVector t v)) a = true) then
+        .value (let fom := if cfg.fomIsLL then ll else fo.add ll (logPriorSum fo lo tbl t v)
+                if cfg.convertChi then fo.mulNeg2 fom else fom)
+      else .value cfg.resample :=
+  fom_with_model_gate ops fo cfg t lims asserts (logPriorList lo tbl t) st v ll hl
+
+/-- a model whose priors are all uniform: every term is `0.0` -/
+theorem uniform_terms_zero (lo : LpOps V) (tbl : List (Nat × PriorD V)) (t : Node V) (v : List V)
+    (hu : ∀ id ∈ uniqueIds t, (descOf lo tbl id).kind = .uniform) :
+    ∀ x ∈ logPriorList lo tbl t v, x = lo.zero := by
+  intro x hx
+  simp only [logPriorList, List.mem_map] at hx
+  obtain ⟨a, ha, rfl⟩ := hx
+  have hid : a.1 ∈ uniqueIds t := by
+    have := List.of_mem_zip (show (a.1, a.2) ∈ (uniqueIds t).zip v from ha)
+    exact this.1
+  simp [logPriorOf, hu a.1 hid]
+
+/-- ... so the posterior of an all-uniform model is `ll + 0.0` (whenever `0.0 + 0.0 = 0.0`) -/
+theorem uniform_sum_zero (fo : FomOps V) (lo : LpOps V) (tbl : List (Nat × PriorD V)) (t : Node V) (v : List V)
+    (hz : fo.add fo.zero lo.zero = fo.zero)
+    (hu : ∀ id ∈ uniqueIds t, (descOf lo tbl id).kind = .uniform) :
+    logPriorSum fo lo tbl t v = fo.zero := by
+  have h := uniform_terms_zero lo tbl t v hu
+  unfold logPriorSum pySum
+  generalize logPriorList lo tbl t v = l at h
+  induction l with
+  | nil => rfl
+  | cons x xs ih =>
+    have hx : x = lo.zero := h x (List.mem_cons_self ..)
+    simp only [List.foldl_cons, hx, hz]
+    exact ih (fun y hy => h y (List.mem_cons_of_mem _ hy))
+
+/-! ### non-vacuity: exact rationals; two priors whose ids are *not* in the order of the walk -/
+
+def ratLp : LpOps Rat where
+  zero := 0
+  one := 1
+  two := 2
+  negInf := -1000000
+  nan := -999
+  sub := (· - ·)
+  mul := (· * ·)
+  div := (· / ·)
+  sq := fun x => x * x
+  log := fun x => x - 1
+  le0 := fun x => decide (x ≤ 0)
+
+def ratFom : FomOps Rat := { add := (· + ·), mulNeg2 := (· * -2), zero := 0, isNaN := fun _ => false }
+
+/-- `Model(P2, a = prior 7 (log-uniform), b = prior 3 (gaussian mean 1 sigma 2))`: the walk meets 7 first,
+the parameter order is 3, 7 -/
+def t₂ : Node Rat := .model "P2" ["a", "b"] [("a", .prior 7), ("b", .prior 3)]
+def tbl₂ : List (Nat × PriorD Rat) := [(7, ⟨.logUniform, 0, 1⟩), (3, ⟨.gaussian, 1, 2⟩)]
+
+example : uniqueIds t₂ = [3, 7] := by decide
+/-- vector `[5, 1/4]`: the gaussian term belongs to the first entry, `(5-1)²/(2·2²) = 2`, the
+log-uniform one to the second, `1/(1/4) = 4` -/
+example : logPriorList ratLp tbl₂ t₂ [5, 1/4] = [2, 4] := by decide +kernel
+example : (match (fitnessCall ratFom { fomIsLL := false, convertChi := true, storeHistory := false, resample := -1 }
+    (fun _ => .ok (.tup [])) (logPriorList ratLp tbl₂ t₂) {} [5, 1/4] (.fin 10)).1 with
+    | .value x => x | .raises => 0) = -32 := by decide +kernel
+/-- a shorter vector: one term -/
+example : logPriorList ratLp tbl₂ t₂ [5] = [2] := by decide +kernel
 
 end AF.C04
